@@ -93,6 +93,17 @@ func main() {
 			usage()
 		}
 		os.Exit(runReplay(os.Args[2]))
+	case "case":
+		// falcosim case <ID> <n> [tier]: run one case number and print what it rendered (debugging aid)
+		if len(os.Args) < 4 {
+			usage()
+		}
+		n, _ := strconv.Atoi(os.Args[3])
+		tier := "quick"
+		if len(os.Args) > 4 {
+			tier = os.Args[4]
+		}
+		os.Exit(runOneCase(os.Args[2], n, tier))
 	case "selftest":
 		if len(os.Args) < 4 || os.Args[2] != "determinism" {
 			usage()
